@@ -7,7 +7,7 @@ import shutil
 
 import numpy as np
 
-from vlib import evlog, gens, instr_mp, models, tilegen
+from vlib import evlog, gens, instr_mp, models, sched, tilegen
 from vlib import ref_quadtree as rq
 
 PROPERTY = "C02"
@@ -44,6 +44,11 @@ def cases(tier, seed):
                         par=R.choice([2, 4] if tier == "quick" else [2, 4, 16]), filt=R.choice([None, None, "posset", "box"]),
                         writer=R.choice(["independent", "toasty"]), via=("cli" if i % 9 == 0 else "api"), profile=R.choice(["natural", "straggler", "slow_dispatcher", "jitter", "slow_feeder", "late_check", "stall", "heavy_tail", "slow_feeder"]),
                         seed=R.randrange(1 << 30)))
+    # one parent tile cannot be stored (disk full) during the parallel cascade: the cascade must say so, or the tree must be right
+    for i in range(6 if tier == "quick" else 60):
+        fmt, mode = R.choice([("npy", "F32"), ("fits", "F32"), ("png", "RGBA"), ("npy", "U8")])
+        out.append(dict(t="cascade", fmt=fmt, mode=mode, start=R.choice([2, 3]), pop=R.choice(["perquad", "half", "all"]), par=R.choice([1, 2, 4]), filt=None,
+                        writer="independent", via="api", profile="natural", seed=R.randrange(1 << 30), io_fault=True))
     # directed: a populated layer whose every leaf is entirely undefined -> no parent may exist, up to the root
     for fmt, mode in (("npy", "F32"), ("fits", "F64"), ("png", "RGBA"), ("npy", "RGBA"), ("npy", "F16x3"), ("fits", "F32")):
         out.append(dict(t="cascade", fmt=fmt, mode=mode, start=R.choice([1, 2, 3]), pop=R.choice(["one", "perquad", "clustered"]), par=2, filt=None,
@@ -254,7 +259,21 @@ def case_cascade(spec, workdir):
     probs = []
     captured = {} if fmt == "jpg" else None
     o1, i1, recs1 = run_cascade(a, fmt, start, 1, filt, "api", spec, os.path.join(workdir, "log-s"), captured)
-    o2, i2, recs2 = run_cascade(b, fmt, start, spec["par"], filt if spec["via"] == "api" else None, spec["via"], spec, os.path.join(workdir, "log-p"))
+    if spec.get("io_fault"):
+        import errno
+
+        live = sorted({rq.parent(p) for p in stored}) or [(0, 0, 0)]
+        fp_pos = R.choice(live)
+        rel = tilegen.tile_relpath(fp_pos, fmt)
+        sched.failpoint("image.py", "save", OSError(errno.ENOSPC, "No space left on device (injected)"), count=1,
+                        when=lambda L: str(L.get("path_or_stream")).endswith(rel), on_fire=lambda: evlog.ev("fault_injected", pos=fp_pos))
+    try:
+        o2, i2, recs2 = run_cascade(b, fmt, start, spec["par"], filt if spec["via"] == "api" else None, spec["via"], spec, os.path.join(workdir, "log-p"))
+    finally:
+        sched.clear_failpoints()
+    if spec.get("io_fault") and o2 == "raised" and any(r["k"] == "fault_injected" for r in recs2):
+        # the failure was reported to the caller: nothing more to demand of this tree
+        return dict(counters=dict(pyramids=1, io_faults_reported=1), nontrivial=True, sample=dict(spec=spec, failing_tile=fp_pos))
     if "watchdog" in (o1, o2):
         return dict(status="inconclusive", detail="watchdog")
     for o, i, nm in ((o1, i1, "serial"), (o2, i2, "parallel")):
